@@ -332,7 +332,45 @@ def hyp_losses(case):
   return {'evals': evals, 'nontrivial': True, 'outcome': [loss, reg, sizes], 'keys': [[loss, reg, sizes, g] for g in geoms]}
 
 
-SUBS = {'grad_masks': grad_masks, 'avg_loss': avg_loss, 'mime_grads': mime_grads, 'agnostic_domain': agnostic_domain,
+def mime_server_grad(case):
+  """The full-batch server gradient that the Mime algorithm itself derives (read off the new parameters of a
+  round with plain SGD and one local step: w' = w - server_lr * lr * c) for several padded geometries."""
+  import fedjax
+  import jax
+  from fedjax.algorithms import mime
+  loss, reg, sizes = case['loss'], case['reg'], case['sizes']
+  per_ex, regz, _, _, _ = impl(loss, reg)
+  seed = case.get('seed', 0)
+  exs = [data(n, seed, off=i) for i, n in enumerate(sizes)]
+  lr, slr = 0.25, 0.5
+  geoms = [tuple(case['geom'])] if 'geom' in case else [(1, 1), (2, 1), (2, 2), (4, 3), (5, 2), (8, 1)]
+  evals = 0
+  allex = {kk: np.concatenate([e[kk] for e in exs]) for kk in ('x', 'y')}
+  want_c = ref_grad(loss, reg, W0, allex) if len(allex['y']) else None
+  for bs, k in geoms:
+    nc = dict(case, geom=[bs, k])
+    key = ('mime_alg', loss, reg, bs, k)
+    if key not in _CACHE:
+      _CACHE[key] = mime.mime(per_ex, fedjax.optimizers.sgd(lr),
+                              fedjax.ShuffleRepeatBatchHParams(batch_size=2, num_epochs=None, num_steps=1, seed=0),
+                              fedjax.PaddedBatchHParams(batch_size=bs, num_batch_size_buckets=k), server_learning_rate=slr,
+                              regularizer=regz)
+    alg = _CACHE[key]
+    clients = [(b'c%d' % i, fedjax.ClientDataset(ex), jax.random.PRNGKey(i)) for i, ex in enumerate(exs)]
+    st, _ = alg.apply(alg.init(jparams(W0)), clients)
+    if want_c is None:
+      for kk in ('w', 'b'):
+        require(np.array_equal(np.asarray(st.params[kk]), np.asarray(jparams(W0)[kk])), 'a cohort without examples moved the '
+                'parameters', case=nc)
+    else:
+      got_c = {kk: (np.asarray(W0[kk], np.float64) - np.asarray(st.params[kk], np.float64)) / (slr * lr) for kk in ('w', 'b')}
+      cmp_tree(got_c, want_c, 'Mime: the server gradient implied by the round is not the full-batch gradient with the '
+               'regulariser counted once', nc, tol=2e-4)
+    evals += 1
+  return {'evals': evals, 'nontrivial': True, 'outcome': [loss, reg, sizes], 'keys': [[loss, reg, sizes, g] for g in geoms]}
+
+
+SUBS = {'mime_server_grad': mime_server_grad, 'grad_masks': grad_masks, 'avg_loss': avg_loss, 'mime_grads': mime_grads, 'agnostic_domain': agnostic_domain,
         'hyp_losses': hyp_losses}
 TIMEOUTS = {k: 1200 for k in SUBS}
 
@@ -355,6 +393,8 @@ def plan(ctx):
   tuples = [[0], [3], [5], [2, 0, 3], [1, 4], [0, 0]] if th else [[3], [2, 0, 3], [0, 0]]
   ctx.pmap('mime_grads', [{'loss': l, 'reg': r, 'sizes': t, 'seed': s} for l in ('sq', 'abs') for r in regs for t in tuples],
            chunk=2)
+  ctx.pmap('mime_server_grad', [{'loss': l, 'reg': r, 'sizes': t, 'seed': s} for l in ('sq',) for r in ('none', 'l2', 'l2c')
+                                for t in ([3], [2, 0, 3], [0, 0], [5, 1])], chunk=1)
   ctx.pmap('agnostic_domain', [{'loss': l, 'sizes': t, 'num_domains': nd, 'seed': s} for l in ('sq', 'abs')
                                for t in tuples for nd in (2, 3)], chunk=2)
   ctx.pmap('hyp_losses', [{'loss': l, 'reg': r, 'sizes': t, 'seed': s} for l in ('sq', 'abs') for r in regs
